@@ -235,8 +235,8 @@ func verif_C10_ops(kind, viewKind, op, R, C, zmask int) {
 		}
 	case 12: // Equals against the compact copy, both directions
 		c := verifCompact(kind, v.E, n, m)
-		VerifAssert("Equals:view-copy", v.m.Equals(c, 0))
-		VerifAssert("Equals:copy-view", c.Equals(v.m, 0))
+		VerifAssert("Equals:view-copy", v.m.Equals(c, 1e-10))
+		VerifAssert("Equals:copy-view", c.Equals(v.m, 1e-10))
 	case 13: // Map / Reduce / MapSet
 		t, _ := verifKindType(kind)
 		sum := v.m.Reduce(func(r Scalar, x ConstScalar) Scalar { r.Add(r, x); return r }, NewScalar(t, 0))
@@ -300,6 +300,10 @@ func verif_C10_ops(kind, viewKind, op, R, C, zmask int) {
 			VerifAssertEqF("write-through", parent.Float64At(v.P[n-1][0][0], v.P[n-1][0][1]), x)
 			verifOutsideUnchanged("write-through", parent, E0, v)
 		}
+	case 18: // dimensions of (possibly empty) views
+		n1, n2 := v.m.Dims()
+		VerifAssert("Dims:rows", n1 == n)
+		VerifAssert("Dims:cols", n2 == m)
 	default:
 		panic("bad op")
 	}
